@@ -172,8 +172,39 @@ func (in *Interp) vfsError(op, path, msg string, notExist bool) Value {
 	return Iface{T: types.NewPointer(pe), V: &st}
 }
 
+// vfsResolveSym: a path with symbolic bytes names an existing entry only if it equals that entry's absolute path
+// byte for byte (paths with symbolic bytes have been cleaned by the interpreted filepath.Abs before they get here).
+func (in *Interp) vfsResolveSym(pathv Value) (string, bool) {
+	v := in.vfsGet()
+	var cands []string
+	for p := range v.ents {
+		if len(p) == strLen(pathv) {
+			cands = append(cands, p)
+		}
+	}
+	sort.Strings(cands)
+	for _, p := range cands {
+		if in.branchVal(in.strEq(pathv, p)) {
+			return p, true
+		}
+	}
+	return "", false
+}
+
 func (in *Interp) vfsReadFile(fn *ssa.Function, pathv Value) Value {
 	v := in.vfsGet()
+	if _, isSym := pathv.(*SymStr); isSym {
+		p, ok := in.vfsResolveSym(pathv)
+		if !ok {
+			// the not-found error carries the (symbolic) name
+			fsPkg := in.prog.ImportedPackage("io/fs")
+			pe := fsPkg.Type("PathError").Type()
+			var inner Value = Iface{T: in.cfg.VfsErrType, V: Struct{"no such file or directory", true}}
+			var st Value = Struct{"open", pathv, inner}
+			return Tuple{[]Value(nil), Iface{T: types.NewPointer(pe), V: &st}}
+		}
+		pathv = p
+	}
 	name := in.concStr(pathv, "os.ReadFile")
 	p := v.abs(name)
 	e, ok := v.ents[p]
